@@ -186,6 +186,35 @@ func StripConv(v ssa.Value) ssa.Value {
 // use this only for fields that are set once before the analysed region).
 func Same(a, b ssa.Value) bool { return same(a, b, 8) }
 
+// cellOrigin: a local cell that is written once, with a whole value loaded from another
+// cell (a struct parameter passed by value and spilled: `out` in the helper is a copy of
+// the caller's `out`), stands for the cell it was copied from.
+func cellOrigin(v ssa.Value) ssa.Value {
+	for i := 0; i < 3; i++ {
+		al, ok := v.(*ssa.Alloc)
+		if !ok {
+			return v
+		}
+		sv, once := StoredOnce(al)
+		if !once {
+			return v
+		}
+		sv = Strip(sv)
+		if _, isPar := sv.(*ssa.Parameter); isPar {
+			sv = Strip(resolveBoundary(sv))
+		}
+		u, isLoad := sv.(*ssa.UnOp)
+		if !isLoad || u.Op != token.MUL {
+			return v
+		}
+		if _, isCell := Strip(u.X).(*ssa.Alloc); !isCell {
+			return v
+		}
+		v = Strip(u.X)
+	}
+	return v
+}
+
 func same(a, b ssa.Value, d int) bool {
 	a, b = Strip(a), Strip(b)
 	if a == b {
@@ -193,6 +222,15 @@ func same(a, b ssa.Value, d int) bool {
 	}
 	if d == 0 || a == nil || b == nil {
 		return false
+	}
+	if _, isCell := a.(*ssa.Alloc); isCell {
+		a = cellOrigin(a)
+	}
+	if _, isCell := b.(*ssa.Alloc); isCell {
+		b = cellOrigin(b)
+	}
+	if a == b {
+		return true
 	}
 	// across the boundary of a private helper: a parameter is the argument of the only
 	// call site, a free variable is its binding, a single-return helper is its result
@@ -283,6 +321,15 @@ func FieldOf(v ssa.Value, fieldName string) (ssa.Value, bool) {
 	case *ssa.FieldAddr:
 		st, ok := deref(x.X.Type()).Underlying().(*types.Struct)
 		if ok && canonField(st, x.Field) == fieldName {
+			// a local copy of a struct (`last := name[i]`): the field is that of the
+			// object copied from
+			if al, isAl := x.X.(*ssa.Alloc); isAl {
+				if v, once := StoredOnce(al); once {
+					if u, isLoad := Strip(v).(*ssa.UnOp); isLoad && u.Op == token.MUL {
+						return u.X, true
+					}
+				}
+			}
 			return x.X, true
 		}
 	case *ssa.Field:
@@ -578,4 +625,40 @@ func TypePkgPath(t types.Type) string {
 		}
 	}
 	return ""
+}
+
+// StoredOnce: al is a local cell written by exactly one store of a whole value (and not
+// through a field or element address that is itself stored to): the value written.
+// `last := name[len(name)-1]` makes `last.Typ` a field of such a cell.
+func StoredOnce(al *ssa.Alloc) (ssa.Value, bool) {
+	var val ssa.Value
+	n := 0
+	for _, r := range Refs(al) {
+		switch x := r.(type) {
+		case *ssa.Store:
+			if x.Addr == ssa.Value(al) {
+				n++
+				val = x.Val
+			} else {
+				return nil, false // the address escapes into memory
+			}
+		case *ssa.FieldAddr, *ssa.IndexAddr:
+			// a write through a component address changes the cell
+			for _, r2 := range Refs(x.(ssa.Value)) {
+				if st, ok := r2.(*ssa.Store); ok && st.Addr == x.(ssa.Value) {
+					return nil, false
+				}
+				if _, ok := r2.(ssa.CallInstruction); ok {
+					return nil, false
+				}
+			}
+		case *ssa.UnOp, *ssa.DebugRef:
+		default:
+			return nil, false
+		}
+	}
+	if n != 1 {
+		return nil, false
+	}
+	return val, true
 }
